@@ -2,7 +2,7 @@
    safe.  Statements only: each theorem is closed by [exact], pinned by [Check]
    and followed by [Print Assumptions]. *)
 From Coq Require Import List ZArith NArith Bool.
-From RB Require Import Base.Val Model.Api Spec.ApiSpec Proofs.ApiRt Proofs.ApiNlri Proofs.Api.
+From RB Require Import Base.Val Model.Api Spec.ApiSpec Proofs.ApiRt Proofs.ApiNlri Proofs.ApiEvpn Proofs.Api.
 Import ListNotations.
 Open Scope N_scope.
 
@@ -184,3 +184,29 @@ Check local_path_accepts_wf :
     /\ existsb (fun a => a_code a =? ORIGIN) attrs = true
     /\ existsb (fun a => a_code a =? AS_PATH) attrs = true.
 Print Assumptions local_path_accepts_wf.
+
+(* (13) net_from_api (nlri_to_api n) = n for every well-formed EVPN route of the five
+   types (RD, ESI, MAC address text, IPv4 / IPv6 address text, one or two labels),
+   under the stated assumptions on the Ipv6Addr textual form. *)
+Theorem evpn_roundtrip :
+  forall (v6p : N -> list N) (v6r : list N -> option N) (e : evpn),
+    v6_contract v6p v6r -> v6_nonempty v6p -> wf_evpn e ->
+    evpn_from_api v6r (evpn_to_api v6p e) = Some e.
+Proof. exact C17_evpn_roundtrip. Qed.
+Check evpn_roundtrip :
+  forall (v6p : N -> list N) (v6r : list N -> option N) (e : evpn),
+    v6_contract v6p v6r -> v6_nonempty v6p -> wf_evpn e ->
+    evpn_from_api v6r (evpn_to_api v6p e) = Some e.
+Print Assumptions evpn_roundtrip.
+
+(* (14) An EVPN route accepted by net_from_api is one the EVPN decoder can produce:
+   24-bit labels, ten-octet ESI, six-octet MAC, prefix length within the prefix's
+   address width, gateway of the prefix's family. *)
+Theorem evpn_from_api_preserves_wf :
+  forall (v6r : list N -> option N) (x : api_evpn) (e : evpn),
+    v6_range v6r -> api_evpn_in_range x -> evpn_from_api v6r x = Some e -> wf_evpn e.
+Proof. exact C17_evpn_from_api_preserves_wf. Qed.
+Check evpn_from_api_preserves_wf :
+  forall (v6r : list N -> option N) (x : api_evpn) (e : evpn),
+    v6_range v6r -> api_evpn_in_range x -> evpn_from_api v6r x = Some e -> wf_evpn e.
+Print Assumptions evpn_from_api_preserves_wf.
